@@ -111,6 +111,15 @@ def facts_at(node, stop=None):
             break
         child = p
         p = getattr(p, '_parent', None)
+    if p is not None and p is stop and isinstance(p, (ast.FunctionDef, ast.AsyncFunctionDef)):
+        block = p.body
+        if child in block:
+            i = block.index(child)
+            for j in range(i):
+                g = block[j]
+                if isinstance(g, ast.If) and not g.orelse and g.body and isinstance(g.body[-1], _TERMINATORS) \
+                        and not _assigned_names(block[j + 1:i]) & _names(g.test):
+                    out |= atoms(g.test, False)
     return out
 
 
